@@ -299,9 +299,20 @@ def stateCore (focus : String) (c : Case) : Acc × String := Id.run do
           acc := { acc with mon := acc.mon.push "final:residuals-and-coefficients-presence-differ" }
       | _, _ => pure ()
       continue
+    let callsBefore := if si == 0 then 0 else P.st.calls
     if si > 0 then
       P := P.setParams (extFor step.svdBreak) floatOps (vecOfArray p step.alpha)
     let o := step.get "impl"
+    -- C09, first clause, judged on the implementation's outputs alone: an injected failure hit a
+    -- model call made by THIS parameter application (`set_params` or the basis evaluation) ⇒ no
+    -- residuals and no coefficients may be exposed afterwards
+    if faultMode && max callsBefore oracle.failFrom < min P.st.calls oracle.failTo then
+      match o.res with
+      | some (some _) => acc := { acc with mon := acc.mon.push s!"step{si}:residuals-present-after-a-model-failure-during-this-update" }
+      | _ => pure ()
+      match o.coef with
+      | some (some _) => acc := { acc with mon := acc.mon.push s!"step{si}:coefficients-present-after-a-model-failure-during-this-update" }
+      | _ => pure ()
     if let some pm := o.panic then
       acc := { acc with mon := acc.mon.push s!"step{si}:panic:{pm}" }
       break
@@ -442,7 +453,7 @@ def stateCore (focus : String) (c : Case) : Acc × String := Id.run do
                       acc := { acc with compared := acc.compared + 1 }
     -- --- twins on the implementation: repeated query and fresh problem must agree bit for bit (C10)
     if wants focus "twins" then
-      for pre in ["again", "fresh"] do
+      for pre in ["again", "fresh", "twinClone"] do
         let t := step.get pre
         -- under fault injection an update may legitimately leave nothing behind (C09; judged by the
         -- model); what IS present must still be what a fresh problem reports
